@@ -537,8 +537,74 @@ func suiteStages() hlib.Suite {
 	}}
 }
 
+// suiteNested: a cleanup that registers a further cleanup while the cleanups are
+// running (a helper that cleans up after itself). The cleanups registered by the
+// body (and by setup) still run exactly once each, in reverse order.
+func suiteNested() hlib.Suite {
+	return hlib.Suite{Name: "cleanups-registering-cleanups-during-teardown", Run: func(r *hlib.Rec) {
+		for _, n := range []int{1, 2, 3} { // cleanups registered by the body / by setup
+			for which := 0; which < n; which++ { // the one that registers another during teardown
+				for _, mode := range []string{"constant", "users"} {
+					r.Eval()
+					input := fmt.Sprintf("mode=%s: %d cleanups registered; cleanup #%d (by registration order) registers one more while it runs", mode, n, which+1)
+					r.SampleCase(input)
+					var ev []string
+					register := func(t *f1testing.T, who string) {
+						for i := 0; i < n; i++ {
+							i := i
+							t.Cleanup(func() {
+								ev = append(ev, fmt.Sprintf("%s-cleanup%d", who, i+1))
+								if i == which {
+									t.Cleanup(func() { ev = append(ev, who+"-late-cleanup") })
+								}
+							})
+						}
+					}
+					rs := &hlib.RunSpec{Mode: mode, CompletionTimeout: time.Second, Quiet: true,
+						Opts: options.RunOptions{MaxDuration: 5 * time.Second, Concurrency: 1, MaxIterations: 2, IgnoreDropped: true}}
+					if mode == "constant" {
+						rs.Flags = map[string]string{"rate": "1/100ms", "distribution": "none"}
+					}
+					rs.ScenarioFn = func(t *f1testing.T) f1testing.RunFn {
+						register(t, "setup")
+						return func(t *f1testing.T) {
+							ev = append(ev, "body"+t.Iteration)
+							register(t, "iter"+t.Iteration)
+							if mode == "users" {
+								vtime.Sleep(time.Millisecond)
+							}
+						}
+					}
+					res := hlib.RunOnce(rs, -1, 0, 60*time.Second)
+					if res.BuildErr != nil || res.Out.Status != vrt.StOK {
+						r.Fail("C06/run-broken", "nested", fmt.Sprint(res.BuildErr, res.Out.Status, res.Out.Crash), input)
+						continue
+					}
+					count := map[string]int{}
+					pos := map[string]int{}
+					for i, e := range ev {
+						count[e]++
+						pos[e] = i
+					}
+					for _, who := range []string{"setup", "iter1", "iter2"} {
+						for i := 1; i <= n; i++ {
+							name := fmt.Sprintf("%s-cleanup%d", who, i)
+							if count[name] != 1 {
+								r.Fail("C06/cleanup-exactly-once", fmt.Sprintf("nested/ran-%d-times", min(count[name], 2)), fmt.Sprintf("%s ran %d times (events %v)", name, count[name], ev), input)
+							} else if i > 1 && pos[name] > pos[fmt.Sprintf("%s-cleanup%d", who, i-1)] {
+								r.Fail("C06/cleanup-order", "nested", fmt.Sprintf("%s ran after the cleanup registered before it (events %v)", name, ev), input)
+							}
+						}
+					}
+					r.Distinct(fmt.Sprintf("%s n=%d which=%d", mode, n, which))
+				}
+			}
+		}
+	}}
+}
+
 func suites(tier string) []hlib.Suite {
-	return []hlib.Suite{suiteSetup(true), suiteBodies(tier != "quick"), suiteStages()}
+	return []hlib.Suite{suiteSetup(true), suiteBodies(tier != "quick"), suiteStages(), suiteNested()}
 }
 
 func main() { hlib.EnumMain("C06", suites) }
